@@ -188,12 +188,15 @@ def run(R):
                 op = aggr[0]["rv"]["ops"][fields.index("result_row")]
                 os_ = F.origins(cf, op, depth=6, through_calls=False)
                 ok = len(os_) == 1 and os_[0].kind == "arg" and os_[0].arg == 1
-        if ok and not cf.calls:
+        # other calls (`..ExecutionOutput::empty()` for the remaining fields) are fine as long as none of them gets hold of the row
+        touched = [c for c in cf.calls if any(a.get("k") in ("copy", "move") and any(o.kind == "arg" and o.arg == 1 for o in F.origins(cf, a, depth=6))
+                                              for a in c.args)]
+        if ok and not touched:
             R.ok("C11.output", "ExecutionOutput::" + ctor, "result_row = the argument, unmodified", cf.loc())
         else:
             R.violation("C11.output", "ExecutionOutput::" + ctor,
                         "ExecutionOutput::%s transforms the result row (calls: %s): what the follower prints differs from what the engine computed"
-                        % (ctor, [short(c.name) for c in cf.calls]), [cf.loc()])
+                        % (ctor, [short(c.name) for c in (touched or cf.calls)]), [cf.loc()])
     R.assume("equality of whole tables between a follow run and a batch run is not compared; LIMIT is excluded by the property")
 
 
